@@ -261,7 +261,8 @@ func isGetHashFn(info *types.Info, call *ast.CallExpr) bool {
 	if f == nil || f.Name() != "GetHashFn" || f.Pkg() == nil {
 		return false
 	}
-	return strings.HasSuffix(f.Pkg().Path(), "ztyp/tree") || strings.HasSuffix(f.Pkg().Path(), "util/hashing")
+	p := f.Pkg().Path()
+	return strings.HasSuffix(p, "ztyp/tree") || strings.HasSuffix(p, "util/hashing") || strings.Contains(p, "protolambda/zrnt")
 }
 
 func ruleGlobalHasher(c *Ctx) {
@@ -459,6 +460,25 @@ func ruleDepositPop(c *Ctx) {
 		}
 		found[step] = true
 		key := "ProcessDeposit." + step
+		// the signature is only inspected for a NEW validator: a top-up (known pubkey) is credited whatever its
+		// signature bytes are, so the signature decode and the verification must sit under `if !exists`
+		if step != "pubkey-decode" {
+			guarded := false
+			for cur := ast.Node(call); cur != nil; cur = parents[cur] {
+				if is, ok := cur.(*ast.IfStmt); ok && is.Body.Pos() <= call.Pos() && call.End() <= is.Body.End() {
+					if ue, ok := ast.Unparen(is.Cond).(*ast.UnaryExpr); ok && ue.Op == token.NOT {
+						if id, ok := ast.Unparen(ue.X).(*ast.Ident); ok && strings.Contains(strings.ToLower(id.Name), "exist") {
+							guarded = true
+						}
+					}
+				}
+			}
+			if guarded {
+				c.ok(key+".new-only", call.Pos(), "only for a pubkey that is not in the registry yet")
+			} else {
+				c.bad(key+".new-only", call.Pos(), "the %s step runs for top-ups as well: the spec never looks at the signature of a deposit for a known pubkey, so a top-up with undecodable or invalid signature bytes must still be credited", step)
+			}
+		}
 		if step == "pop-verify" {
 			// the enclosing if (condition contains !Verify) must return nil
 			var cur ast.Node = call
